@@ -285,6 +285,20 @@ impl Prop for C07 {
                         }
                         rep.class(&format!("sparse-doc:w={}", w));
                     }
+                    // the library's own file with a generated subset of the optional support structures kept
+                    let keep = (case.w_choice ^ case.slack.rotate_left(3)) % 8;
+                    let mixed = dres(docfmt::strip_sparse_masked(body, keep), "sparse bitvector")?;
+                    let loaded = load_doc(x.as_ref(), &wrap(mixed), "sparse bitvector (subset of supports)")?;
+                    ensure!(loaded.eq_dyn(x.as_ref()), "load-doc.sparse-mixed", "a sparse bitvector loaded from a file keeping supports {:03b} of its high part != the original", keep);
+                    if opt == 0 {
+                        let sv = loaded.as_any().downcast_ref::<SparseVector>().expect("type");
+                        let plan = crate::props::c02::sparse_plan(&model, &[case.slack as u64 * 0x0101_0101_0101_0101], 300);
+                        check_bitvec(sv, &model, &plan, &format!("SparseVector(supports kept {:03b})", keep)).map_err(|mut f| {
+                            f.sig = format!("load-doc.{}", f.sig);
+                            f
+                        })?;
+                    }
+                    rep.class(&format!("sparse-kept-supports:{:03b}", keep));
                 }
                 nontrivial = values.len() >= 2;
                 rep.class_if(multi, "sparse:multiset");
@@ -355,6 +369,20 @@ impl Prop for C07 {
                             f
                         })?;
                     }
+                    // every level keeps its own generated subset of support structures
+                    let keep: Vec<u8> = (0..7u8).map(|k| (case.w_choice.wrapping_mul(37).wrapping_add(k.wrapping_mul(11)) ^ case.slack.rotate_left(k as u32)) % 8).collect();
+                    let mixed = dres(docfmt::strip_wm_masked(body, &keep), "wavelet matrix")?;
+                    let loaded = load_doc(x.as_ref(), &wrap(mixed), "wavelet matrix (subsets of supports per level)")?;
+                    ensure!(loaded.eq_dyn(x.as_ref()), "load-doc.wm-mixed", "a wavelet matrix loaded from a file whose levels keep the supports {:?} != the original", keep);
+                    if opt == 0 {
+                        let wm = loaded.as_any().downcast_ref::<WaveletMatrix>().expect("type");
+                        let mut r2 = Report::new();
+                        c04::check_wm(wm, &vm, &dummy, &mut r2).map_err(|mut f| {
+                            f.sig = format!("load-doc.mixed.{}", f.sig);
+                            f
+                        })?;
+                    }
+                    rep.class("wm-kept-supports:per-level-subsets");
                 } else {
                     let got = dres(d.core(), "wavelet matrix core")?;
                     ensure_eq!(got.width, width, "doc.core", "width must be the bit length of the largest item");
@@ -386,7 +414,7 @@ impl Prop for C07 {
     }
 
     fn health(classes: &BTreeMap<String, u64>, _tier: Tier) -> Result<(), String> {
-        for c in ["RawVector", "IntVector", "SparseVector", "SparseVector(big)", "SparseVector(multiset)", "RLVector", "WMCore", "WaveletMatrix", "String", "Vec<u8>", "Some:RLVector", "optional:absent", "rl:blocks>=9", "rl:padded-block", "rl:sample-width-slack", "bytes:padded", "sparse-doc:w=63", "sparse-doc:w=1", "raw:history+partial-word", "int:history+partial-word"] {
+        for c in ["RawVector", "IntVector", "SparseVector", "SparseVector(big)", "SparseVector(multiset)", "RLVector", "WMCore", "WaveletMatrix", "String", "Vec<u8>", "Some:RLVector", "optional:absent", "rl:blocks>=9", "rl:padded-block", "rl:sample-width-slack", "bytes:padded", "sparse-doc:w=63", "sparse-doc:w=1", "wm-kept-supports:per-level-subsets", "sparse-kept-supports:010", "sparse-kept-supports:100", "raw:history+partial-word", "int:history+partial-word"] {
             if classes.get(c).copied().unwrap_or(0) == 0 {
                 return Err(format!("no generated case reached class {}", c));
             }
